@@ -25,6 +25,10 @@ TRANSLATOR_PARTS += ["trmatch"]
 # (translate/melody.py -> lean/MirGen/Melody.lean); Props/C04_GenMelody.lean proves the generated definitions equal to the
 # hand-written melody model for all inputs; suite `gen_melody` runs them (driver op `gen.melody`) against the real functions
 TRANSLATOR_PARTS += ["melody"]
+# mir_eval.pattern's metrics are REGENERATED from the source (translate/pattern.py -> lean/MirGen/Pattern.lean, over the
+# validators part's Mir.GenV.pattern.validate / _n_onset_midi); Props/C04_GenPattern.lean proves the generated definitions
+# equal to the hand-written pattern model for all pattern lists; suite `gen_pattern` runs them (driver op `gen.pattern`)
+TRANSLATOR_PARTS += ["validators", "pattern"]
 _here = os.path.dirname(os.path.abspath(__file__))
 _props = os.path.join(os.path.dirname(os.path.dirname(_here)), "lean", "MirProofs", "Props")
 LEAN_MODULES = sorted("MirProofs.Props." + os.path.basename(f)[:-5]
@@ -362,6 +366,91 @@ def _suite_gen_melody(rng, tier, shard, nshards):
 
 
 SUITES["gen_melody"] = suite_gen_melody
+
+# ------------------------------------------------------------------------------------------------
+# suite gen_pattern: the GENERATED pattern definitions (lean/MirGen/Pattern.lean, driver op `gen.pattern`) vs the real
+# functions on the existing pattern streams, and the run-time primitives (`pypat.*`, lean/MirModel/PyPat.lean) vs NumPy
+
+def _gp_available():
+    import core
+    import proto
+    try:
+        outs = core.run_driver(["0 gen.pattern %s\n" % proto.enc("?")])
+        v = proto.dec_line(outs[0])[1]
+    except Exception:  # noqa: BLE001
+        return set()
+    return set(v) if isinstance(v, list) else set()
+
+
+def _gp_prim_cases(rng, tier):
+    import numpy as np
+    from fractions import Fraction as Fr
+
+    def f64(m):
+        return np.asarray([[float(x) for x in r] for r in m], dtype=float).reshape(len(m), len(m[0]) if m else 0)
+
+    def q():
+        return Fr(rng.randint(-64, 64), 32)
+    for _ in range(60 if tier == "quick" else 400):
+        n, d = rng.choice([0, 1, 1, 2, 3, 4]), 2
+        P = [[q() for _ in range(d)] for _ in range(n)]
+        Q = [[q() for _ in range(d)] for _ in range(n)]
+        if n:
+            yield Case("pypat.msub", [P, Q], lambda P=P, Q=Q: (f64(P) - f64(Q)).tolist(), tag="prim msub",
+                       info={"op": "pypat.msub"})
+        yield Case("pypat.diffabsmax", [P], lambda P=P: float(np.max(np.abs(np.diff(f64(P), axis=0)))),
+                   tag="prim diffabsmax n=%d" % n, info={"op": "pypat.diffabsmax", "P": [[str(x) for x in r] for r in P]})
+        pts = [[Fr(rng.randint(0, 3)), Fr(rng.randint(60, 62))] for _ in range(rng.randint(0, 5))]
+        pts2 = [[Fr(rng.randint(0, 3)), Fr(rng.randint(60, 62))] for _ in range(rng.randint(0, 5))]
+        yield Case("pypat.setlen", [pts], lambda pts=pts: len(set(tuple(float(x) for x in p) for p in pts)),
+                   tag="prim set", info={"op": "pypat.setlen"})
+        yield Case("pypat.inter", [pts, pts2],
+                   lambda a=pts, b=pts2: sorted(list(x) for x in (set(tuple(float(x) for x in p) for p in a)
+                                                                 & set(tuple(float(x) for x in p) for p in b))),
+                   tag="prim inter", info={"op": "pypat.inter"})
+        r, c = rng.choice([1, 1, 2, 3]), rng.choice([1, 2, 3])
+        M = [[q() for _ in range(c)] for _ in range(r)]
+        for ax in (0, 1):
+            yield Case("pypat.maxaxis%d" % ax, [r, c, M], lambda M=M, ax=ax: np.max(f64(M), axis=ax).tolist(),
+                       tag="prim maxaxis%d" % ax, info={"op": "pypat.maxaxis"})
+        rows = [rng.randint(0, r if rng.random() < 0.1 else r - 1) for _ in range(rng.randint(1, 4))]
+        cols = [rng.randint(0, c - 1) for _ in range(rng.randint(1, 4))]
+        yield Case("pypat.ix", [M, rows, cols],
+                   lambda M=M, rows=rows, cols=cols: f64(M)[np.ix_(np.asarray(rows), np.asarray(cols))].tolist(),
+                   tag="prim ix", info={"op": "pypat.ix"})
+        a, b = rng.randint(0, 5), rng.choice([0, 1, 2, 3])
+
+        def div(a=a, b=b):
+            return a / float(b)
+        yield Case("pypat.divF", [Fr(a), Fr(b)], div, tag="prim divF", info={"op": "pypat.divF"})
+        k, n_ = rng.randint(0, 5), rng.randint(-3, 7)
+        yield Case("pypat.minInt", [k, n_], lambda k=k, n_=n_: min(k, n_), tag="prim min", info={"op": "pypat.minInt"})
+        xs = [Fr(i) for i in range(k)]
+        yield Case("pypat.sliceTo", [xs, n_], lambda xs=xs, n_=n_: [float(x) for x in xs][:n_], tag="prim slice",
+                   info={"op": "pypat.sliceTo"})
+
+
+def suite_gen_pattern(rng, tier, shard, nshards):
+    from suites import pattern as PS
+    avail = _gp_available()
+    if shard == 0:
+        for c in _gp_prim_cases(rng, tier):
+            yield c
+    for name, cap in (("pattern_helpers", 400), ("pattern_standard", 200), ("pattern_establishment", 200),
+                      ("pattern_occurrence", 200), ("pattern_three_layer", 200), ("pattern_first_n", 200),
+                      ("pattern_exhaustive", 300)):
+        for j, c in enumerate(PS.SUITES[name](rng, tier, shard, nshards)):
+            if tier == "quick" and j >= cap:
+                break
+            fn = c.op.split(".", 1)[1]
+            if not c.op.startswith("pattern.") or fn not in avail:
+                continue
+            info = dict(c.info or {}, op="gen.pattern", fn=fn)
+            yield Case("gen.pattern", [fn] + list(c.args), c.call, tol=c.tol, tag="gen " + c.tag, info=info,
+                       nontrivial=c.nontrivial, post=c.post)
+
+
+SUITES["gen_pattern"] = suite_gen_pattern
 
 CHECKERS = {"documented_defaults": check_defaults}
 ORACLES = {"documented_defaults": gen_defaults}
